@@ -174,7 +174,7 @@ func c17FaultCompound(dir string, no, nRepos int) (string, []uint32, error) {
 		name := fmt.Sprintf("tomb%d/r%d", no, j)
 		id := uint32(500 + j)
 		ids = append(ids, id)
-		b, err := index.NewBuilder(index.Options{IndexDir: scratch, DisableCTags: true,
+		b, err := index.NewBuilder(index.Options{IndexDir: scratch, DisableCTags: true, ShardMax: 1 << 16, Parallelism: 1,
 			RepositoryDescription: zoekt.Repository{Name: name, ID: id, Branches: []zoekt.RepositoryBranch{{Name: "main", Version: "v"}}}})
 		if err != nil {
 			return "", nil, err
